@@ -11,6 +11,8 @@ CODES = {
     22: "spec-virtio-hdr-not-written",
     20: "spec-passthrough",
     10: "spec-bookkeeping",
+    11: "write-failing-call-wrote-something",
+    12: "write-path-panic",
     38: "gro-ipv6-flow-label-ignored",
     37: "gro-prepend-drops-psh",
     36: "spec-psh-differs",
@@ -30,7 +32,8 @@ class Prop:
     pid = "C16"
     vo_check = ["theories/Gro/Check.vo"]
     vo_props = ["theories/Props/C16.vo"]
-    k_names = ["written-buffers(tun.handleGRO == Gro.Model.handle_gro: toWrite, virtio headers, packets, byte-exact)"]
+    k_names = ["written-buffers(tun.handleGRO == Gro.Model.handle_gro: toWrite, virtio headers, packets, byte-exact)",
+               "write-path((*NativeTun).Write on one device, call after call == handle_gro with fresh tables per call: datagrams on the fd, byte-exact)"]
     rule = ("batches of 2..128 packets from one PRNG: 1-5 (up to 8) interleaved flows over TCP/UDP/other x IPv4/IPv6; TCP flows in "
             "order / reversed / shuffled / one late / duplicated / gapped or overlapping / halves swapped, sequence numbers "
             "around 2^32, equal / short-tail / short-middle / one-larger / random sizes, PSH/FIN/SYN/RST/URG, TOS/TTL/DF/"
@@ -68,7 +71,7 @@ class Prop:
         return files, meta["cases"]
 
     def generate(self, seed, tier, mult):
-        n = (240 if tier == "quick" else 5000) * mult
+        n = (500 if tier == "quick" else 5000) * mult
         shards = 16 if tier == "quick" else 64
         args = ["-seed", str(seed), "-n", str(n), "-shards", str(shards), "-out", self.dir,
                 "-corpus", os.path.join(vlib.ROOT, "corpus", "C16")]
@@ -90,6 +93,9 @@ class Prop:
         fs = self._fails(self.shards, files, outputs)
         # second opinion of the harness (repository's gsoSplit + gVisor checksums) on GSO buffers the
         # Coq specification accepted: a disagreement means KernelSpec.v and gsoSplit differ
+        for i, c in enumerate(cases):
+            if c.get("panic"):
+                fs.append({"case": i, "kind": 2, "pos": 12, "panic": c["panic"][:200]})
         bad2 = {f["case"] for f in fs if f["kind"] == 2}
         for i, c in enumerate(cases):
             if c.get("second") and i not in bad2:
@@ -107,7 +113,8 @@ class Prop:
         d = os.path.join(self.dir, "rerun")
         os.makedirs(d, exist_ok=True)
         inp = os.path.join(d, "in.json")
-        json.dump([{"gen": c.get("gen", ""), "udp": c["udp"], "off": c["off"], "in": c["in"]} for c in cases], open(inp, "w"))
+        json.dump([{"gen": c.get("gen", ""), "udp": c["udp"], "off": c["off"], "in": c["in"],
+                    "w": c.get("w", False), "pre": c.get("pre")} for c in cases], open(inp, "w"))
         exe = vlib.build_go("c16")
         rc, o = vlib.sh([exe, "-replay", inp, "-shards", str(min(16, len(cases))), "-out", d], cwd=vlib.ROOT, timeout=900)
         if rc != 0:
@@ -115,7 +122,11 @@ class Prop:
         files, meta = self._load(d)
         outs = vlib.run_case_files(files)
         self.last_rerun = meta["cases"]
-        return self._fails(meta["shards"], files, outs)
+        fs = self._fails(meta["shards"], files, outs)
+        for i, c in enumerate(meta["cases"]):
+            if c.get("panic"):
+                fs.append({"case": i, "kind": 2, "pos": 12, "panic": c["panic"][:200]})
+        return fs
 
     def shrink_candidates(self, case):
         # the dedicated finding scenarios are minimal by construction
@@ -132,7 +143,8 @@ class Prop:
                     budget -= sum(len(b["data"]) for b in cand)
                     if budget < 0:
                         return
-                    yield {"gen": case.get("gen", ""), "udp": case["udp"], "off": case["off"], "in": cand}
+                    yield {"gen": case.get("gen", ""), "udp": case["udp"], "off": case["off"], "in": cand,
+                           "w": case.get("w", False), "pre": case.get("pre")}
             chunk //= 2
 
     def signature(self, case, f):
@@ -144,13 +156,16 @@ class Prop:
         return sig
 
     def nontrivial(self, c):
+        if c.get("w"):
+            return bool(c.get("pre")) and not c["err"] and 0 < len(c.get("out") or []) < len(c["in"])
         return (not c["err"]) and 0 < len(c["tw"]) < len(c["in"]) and len(c["tw"]) > 1
 
     def sample(self, c):
         return {"gen": c.get("gen"), "packets": len(c["in"]), "offset": c["off"], "canUDPGRO": c["udp"],
+                "write_path_call_after": len(c.get("pre") or []) if c.get("w") else None,
                 "lengths_in": [len(b["data"]) // 2 for b in c["in"][:12]], "toWrite": c["tw"][:12],
-                "lengths_written": [len(b["data"]) // 2 for b in c["out"][:12]],
-                "virtio_hdrs": [b["hdr"] for b in c["out"][:4]]}
+                "lengths_written": [len(b["data"]) // 2 for b in (c.get("out") or [])[:12]],
+                "virtio_hdrs": [b["hdr"] for b in (c.get("out") or [])[:4]]}
 
 
 def check(tier, seed):
